@@ -227,6 +227,15 @@ impl<'builder> Builder<'builder> {
         let handshake_cipherstate = CipherState::new(cipher);
         let cipherstates = CipherStates::new(CipherState::new(cipher1), CipherState::new(cipher2))?;
 
+        // Keys longer than the DH function admits cannot be stored; refuse them here instead of
+        // panicking while copying them.
+        if self.s.is_some_and(|k| k.len() > s_dh.priv_len())
+            || self.e_fixed.is_some_and(|k| k.len() > e_dh.priv_len())
+            || self.rs.is_some_and(|k| k.len() > s_dh.pub_len())
+        {
+            return Err(InitStage::ValidateKeyLengths.into());
+        }
+
         let s = match self.s {
             Some(k) => {
                 (*s_dh).set(k);
